@@ -127,3 +127,17 @@ pub trait Sinky {
     fn put_ref(&self, s: &mut Sink<'_>, v: u8) -> u8;
 }
 //@trait-end Sinky
+
+//@trait-begin Flat
+#[unimock(api = [FlatMake, FlatA, FlatB])]
+pub trait Flat {
+    fn make() -> u8
+    where
+        Self: Sized,
+    {
+        1
+    }
+    fn fa(&self, a: u8) -> u8;
+    fn fb(&self, a: u8, b: u8) -> u8;
+}
+//@trait-end Flat
